@@ -52,7 +52,7 @@ def cases(tier, seed, shard, nshards, rng):
             yield {"kind": "exitstack", "spec": [[rng.choice(C14.KINDS), rng.choice(C14.BEHS)] for _ in range(m)],
                    "body": rng.random() < 0.4, "susp": rng.choice([1, 2]), "body_susp": rng.choice([0, 1])}
         else:
-            yield {"kind": "scoped", "c08": {"block": C08.gen_block(rng, 1), "flav": rng.choice(["async_class", "async_gen"]),
+            yield {"kind": "scoped", "c08": {"block": C08.gen_block(rng, 1), "flav": rng.choice(["async_class", "async_gen", "async_class_proxy"]),
                                             "keys": [rng.randrange(4) for _ in range(rng.randint(1, 7))]}}
 
 
